@@ -174,4 +174,26 @@ def refUnpackAux : Nat → Bytes → List Value → Option (Value × Bytes × Li
 def refUnpack (data : Bytes) : Option (Value × Bytes) :=
   (refUnpackAux (data.length + 1) data []).map fun (v, r, _) => (v, r)
 
+/-! ### where code and documentation can be compared: data objects below 64 KiB
+(the document gives `0x93`/`0x94` 3/4-byte lengths, `opack.py` writes 4/8-byte lengths) -/
+
+mutual
+def dataShort : Value → Bool
+  | .bytes b => decide (b.length ≤ 0xFFFF)
+  | .list xs => dataShortList xs
+  | .dict kvs => dataShortPairs kvs
+  | .none => true
+  | .bool _ => true
+  | .int _ _ => true
+  | .float _ => true
+  | .str _ => true
+  | .uuid _ => true
+def dataShortList : List Value → Bool
+  | [] => true
+  | x :: xs => dataShort x && dataShortList xs
+def dataShortPairs : List (Value × Value) → Bool
+  | [] => true
+  | (k, v) :: r => dataShort k && dataShort v && dataShortPairs r
+end
+
 end PyatvModel.C04.Opack
